@@ -165,6 +165,9 @@ def _np_where(it, a, k):
     c, x, y = a
     if isinstance(c, bool):
         return x if c else y
+    if isinstance(c, SymBool) and it.known(c) is not None:
+        c = it.known(c)
+        return x if c else y
     if isinstance(c, SymBool) and isinstance(x, (bool, SymBool)) and isinstance(y, (bool, SymBool)) and c.key not in it.assume:
         return merge(it, c, x, y)
     if not (is_num(x) and is_num(y)):
